@@ -59,11 +59,22 @@ func GenRequests(g *tape.Stream, fg *tape.Stream, s *Setup, p *Profile) [][]*Req
 	var hot string
 	hotChain := -99
 	var hotMethods []string
-	if len(s.Routes) > 0 {
+	type hotT struct {
+		path    string
+		chain   int
+		methods []string
+	}
+	var hots []hotT
+	nh := p.HotPaths
+	if nh < 1 {
+		nh = 1
+	}
+	for i := 0; i < nh && len(s.Routes) > 0; i++ {
 		r := s.Routes[g.Intn(len(s.Routes))]
-		hot = r.Inst[g.Intn(len(r.Inst))]
-		hotChain = r.Index
-		hotMethods = MethodsOf(r, r.AutoHead)
+		hots = append(hots, hotT{r.Inst[g.Intn(len(r.Inst))], r.Index, MethodsOf(r, r.AutoHead)})
+	}
+	if len(hots) > 0 {
+		hot, hotChain, hotMethods = hots[0].path, hots[0].chain, hots[0].methods
 	}
 	maxChain := len(s.Mw) + 8
 	if maxChain > ActionPos {
@@ -78,6 +89,10 @@ func GenRequests(g *tape.Stream, fg *tape.Stream, s *Setup, p *Profile) [][]*Req
 			q.Method = p.Methods[g.Weighted(p.MethodW...)]
 			switch {
 			case hot != "" && g.Chance(p.HotPm):
+				if len(hots) > 1 {
+					h := hots[g.Intn(len(hots))]
+					hot, hotChain, hotMethods = h.path, h.chain, h.methods
+				}
 				q.Path, q.Tag, q.Chain = hot, "hot", hotChain
 			case g.Chance(p.HostilePm) || len(s.Routes) == 0:
 				q.Path, q.Tag, q.Chain = Hostile[g.Intn(len(Hostile))], "hostile", -1
@@ -119,6 +134,14 @@ func GenRequests(g *tape.Stream, fg *tape.Stream, s *Setup, p *Profile) [][]*Req
 				q.Hdr = append(q.Hdr, [2]string{"X-Gate", "open"})
 			case 2:
 				q.Hdr = append(q.Hdr, [2]string{"X-Gate", "shut"})
+			}
+			switch g.Intn(4) {
+			case 1:
+				q.Hdr = append(q.Hdr, [2]string{"X-Key", "k1"}, [2]string{"X-Third", "x"})
+			case 2:
+				q.Hdr = append(q.Hdr, [2]string{"X-Key", "nope"})
+			case 3:
+				q.Hdr = append(q.Hdr, [2]string{"X-Key", "k2"})
 			}
 			if g.Intn(4) == 1 {
 				q.Hdr = append(q.Hdr, [2]string{"X-Real-IP", "10.0.0." + itoa(q.ID)})
